@@ -96,4 +96,17 @@ def formatDecimal (s : List Char) (sig : Nat) : List Char :=
       else s.take (fe - tz)
     else s
 
+/-! ### scale (prefix) selection for byte sizes and throughputs: `Scale::from_f64` over `scale_starts` -/
+
+/-- `scale_starts`: where each prefix starts, decimal (10^3k) or binary (1024^k) -/
+def starts (binary : Bool) : List Nat :=
+  if binary then [1, 1024, 1024^2, 1024^3, 1024^4, 1024^5] else [1, 10^3, 10^6, 10^9, 10^12, 10^15]
+
+/-- index of the scale of the value `num / 10^sc`: first `i` with value < starts[i+1], else 5 (the
+    code's if-chain) -/
+def scaleIdx (num sc : Nat) (binary : Bool) : Nat :=
+  let st := starts binary
+  let lt (i : Nat) : Bool := num < st.getD i 0 * 10 ^ sc
+  if lt 1 then 0 else if lt 2 then 1 else if lt 3 then 2 else if lt 4 then 3 else if lt 5 then 4 else 5
+
 end Fmt
